@@ -77,6 +77,7 @@ type Op struct {
 	Delta  bool     `json:"delta,omitempty"`
 	SetMem bool     `json:"set_mem,omitempty"`
 	Stdin  bool     `json:"stdin,omitempty"`
+	Label  int      `json:"label,omitempty"` // set-node: set the node's label "l" to this number (0: leave the labels)
 	Bind   bool     `json:"bind,omitempty"` // cpu-bind request: each instance owns its cores
 	// lambda: the caller's context is cancelled right before the first call of this method (client went away / async timeout)
 	CancelAt string `json:"cancel_at,omitempty"`
@@ -356,6 +357,9 @@ func (d *driver) run(o Op, f *FaultSpec) *StepObs {
 		if o.SetMem {
 			so.Resources = resourcetypes.Resources{"cpumem": resourcetypes.RawParams{"memory": o.Mem}}
 		}
+		if o.Label > 0 {
+			so.Labels = map[string]string{"l": strconv.Itoa(o.Label)}
+		}
 		_, err = w.C.SetNode(ctx, so)
 	case "create":
 		var ch chan *types.CreateWorkloadMessage
@@ -582,7 +586,13 @@ func snapCoq(s *cw.Snapshot) string {
 	nodes, plugs, wls, wlnodes, conts, eng := []string{}, []string{}, []string{}, []string{}, []string{}, []string{}
 	diffs := 0
 	for _, n := range s.Nodes {
-		nodes = append(nodes, fmt.Sprintf("(%d, %d, %s, %s)", num(n.Name), num(n.Pod), vh.Bool(n.Bypass), vh.Bool(n.Available)))
+		label := 0 // the harness only ever sets the label "l" to a number
+		for _, kv := range n.Labels {
+			if strings.HasPrefix(kv, "l=") {
+				label, _ = strconv.Atoi(strings.TrimPrefix(kv, "l="))
+			}
+		}
+		nodes = append(nodes, fmt.Sprintf("(%d, %d, %s, %s, %d)", num(n.Name), num(n.Pod), vh.Bool(n.Bypass), vh.Bool(n.Available), label))
 		if n.HasPlugin {
 			plugs = append(plugs, fmt.Sprintf("(%d, %s, %s)", num(n.Name), coqRes(n.CapCPU, n.CapMem), coqRes(n.UseCPU, n.UseMem)))
 		}
@@ -661,7 +671,11 @@ func (o Op) coq() string {
 		if o.SetMem {
 			mem = fmt.Sprintf("(Some (%s, %s))", vh.Z(o.Mem), vh.Bool(o.Delta))
 		}
-		return fmt.Sprintf("(OSetNode %d %s %s None)", o.Node, by, mem)
+		lab := "None"
+		if o.Label > 0 {
+			lab = fmt.Sprintf("(Some %d)", o.Label)
+		}
+		return fmt.Sprintf("(OSetNode %d %s %s %s)", o.Node, by, mem, lab)
 	case "create":
 		return fmt.Sprintf("(OCreate %d %d %d %s %s)", o.Opi, o.Pod, o.Count, coqRes(o.CPU, o.Mem), plan())
 	case "remove":
@@ -704,7 +718,7 @@ func (h *history) coq() string {
 var faultMethods = map[string][]string{
 	"addnode":    {"Info", "AddNode", "AddNode"},
 	"removenode": {"GetNode", "CreateLock", "Lock", "ListNodeWorkloads", "SetNodeStatus", "RemoveNode", "RemoveNode"},
-	"setnode":    {"GetNode", "Lock", "GetNodeResourceInfo", "SetNodeResourceCapacity", "UpdateNodes", "UpdateNodes"},
+	"setnode":    {"GetNode", "Lock", "GetNodeResourceInfo", "GetNodeResourceInfo", "SetNodeResourceCapacity", "UpdateNodes", "UpdateNodes"},
 	"create": {"GetNodesByPod", "CreateLock", "Lock", "Log", "Log", "GetNodesDeployCapacity", "GetDeployStatus", "Alloc", "Alloc", "CreateProcessing",
 		"GetNode", "ImageLocalDigests", "ImageRemoteDigest", "VirtualizationCreate", "AddWorkload", "AddWorkload", "VirtualizationStart", "VirtualizationStart",
 		"VirtualizationInspect", "Commit", "DeleteProcessing"},
@@ -804,6 +818,9 @@ func (d *driver) randomOp(kinds []string) (Op, bool) {
 		o.Bypass = r.Intn(3)
 		if r.Intn(2) == 0 {
 			o.SetMem, o.Delta, o.Mem = true, true, []int64{100, 500}[r.Intn(2)]
+		}
+		if r.Intn(2) == 0 {
+			o.Label = 1 + r.Intn(3)
 		}
 	case "addnode":
 		o.Node = 6 + r.Intn(3)
@@ -1001,6 +1018,9 @@ func (d *driver) armFor(o Op) *FaultSpec {
 	ord := 0
 	if d.rng.Intn(3) == 0 {
 		ord = 1 + d.rng.Intn(3)
+	}
+	if o.Kind == "setnode" && m == "GetNodeResourceInfo" && d.rng.Intn(2) == 0 {
+		ord = 1 // the refresh after the store update
 	}
 	return &FaultSpec{Method: m, Target: "*", Ord: ord}
 }
